@@ -45,6 +45,17 @@ using T1 = cnl::static_integer<64, RT, OT>;
 using T2 = cnl::static_integer<32, RT, OT>;
 using T3 = cnl::static_integer<127, RT, OT>;
 using T4 = cnl::static_integer<96, RT, OT>;
+#elif MENU == 5
+// unsigned Narrowest (round 9): registers whose range is [0, 2^digits - 1]; 16-digit registers whose products fill a
+// 32-bit storage word exactly (a 32-digit unsigned register itself does not compile under a checked tag: its square needs a
+// 65-digit comparison) -- unary minus of such intermediates, subtraction below zero and the conversions between them
+using RT = cnl::nearest_rounding_tag;
+using OT = cnl::_impl::throwing_overflow_tag;
+#define MENU_NAME "nearest_throwing_unsigned"
+using T1 = cnl::static_number<16, -8, RT, OT, unsigned>;
+using T2 = cnl::static_number<16, 0, RT, OT, unsigned>;
+using T3 = cnl::static_number<31, -4, RT, OT, unsigned>;
+using T4 = cnl::static_number<8, 2, RT, OT, unsigned>;
 #else
 using RT = cnl::tie_to_pos_inf_rounding_tag;
 using OT = cnl::saturated_overflow_tag;
@@ -204,6 +215,62 @@ std::string neg_ad(regs_t& r, int a, int d)
     case 2: return neg_d<2>(r, d);
     case 3: return neg_d<3>(r, d);
     default: return neg_d<4>(r, d);
+    }
+}
+
+// d := a two-operator expression of a and b: the elastic intermediate is never converted to a declared type
+template<int A, int B, int D>
+std::string expr(regs_t& r, std::string const& op)
+{
+    auto& a = reg<A>(r);
+    auto& b = reg<B>(r);
+    auto& d = reg<D>(r);
+    using TD = std::remove_reference_t<decltype(d)>;
+    return guarded([&] {
+        if (op == "neg_add") {
+            d = static_cast<TD>(-(a + b));
+        } else if (op == "neg_sub") {
+            d = static_cast<TD>(-(a - b));
+        } else if (op == "neg_mul") {
+            d = static_cast<TD>(-(a * b));
+        } else if (op == "mul_add") {
+            d = static_cast<TD>((a * b) + a);
+        } else if (op == "mul_sub") {
+            d = static_cast<TD>((a * b) - a);
+        } else if (op == "add_mul") {
+            d = static_cast<TD>((a + b) * a);
+        } else {
+            d = static_cast<TD>((a - b) * b);
+        }
+    });
+}
+template<int A, int B>
+std::string expr_d(regs_t& r, std::string const& op, int d)
+{
+    switch (d) {
+    case 1: return expr<A, B, 1>(r, op);
+    case 2: return expr<A, B, 2>(r, op);
+    case 3: return expr<A, B, 3>(r, op);
+    default: return expr<A, B, 4>(r, op);
+    }
+}
+template<int A>
+std::string expr_bd(regs_t& r, std::string const& op, int b, int d)
+{
+    switch (b) {
+    case 1: return expr_d<A, 1>(r, op, d);
+    case 2: return expr_d<A, 2>(r, op, d);
+    case 3: return expr_d<A, 3>(r, op, d);
+    default: return expr_d<A, 4>(r, op, d);
+    }
+}
+std::string expr_abd(regs_t& r, std::string const& op, int a, int b, int d)
+{
+    switch (a) {
+    case 1: return expr_bd<1>(r, op, b, d);
+    case 2: return expr_bd<2>(r, op, b, d);
+    case 3: return expr_bd<3>(r, op, b, d);
+    default: return expr_bd<4>(r, op, b, d);
     }
 }
 
@@ -430,6 +497,14 @@ int main(int argc, char** argv)
                     continue;
                 }
                 out.put(ev("StIncDec").num("i", id).num("prog", prog).num("k", k).str("op", op).num("d", d).raw("before", before).raw("after", raw_of(r, d))
+                                .raw("all", "[" + raw_of(r, 1) + "," + raw_of(r, 2) + "," + raw_of(r, 3) + "," + raw_of(r, 4) + "]").str("out", o2).s);
+            } else if (field_s(o, "k") == "expr") {
+                std::string op = field_s(o, "op");
+                int a = field_i(o, "a"), b = field_i(o, "b"), d = field_i(o, "d");
+                std::string va = raw_of(r, a), vb = raw_of(r, b), before = raw_of(r, d);
+                std::string o2 = expr_abd(r, op, a, b, d);
+                out.put(ev("StStep").num("i", id).num("prog", prog).num("k", k).str("op", op).str("form", "expression").num("a", a).num("b", b).num("d", d)
+                                .raw("va", va).raw("vb", vb).raw("before", before).raw("after", raw_of(r, d))
                                 .raw("all", "[" + raw_of(r, 1) + "," + raw_of(r, 2) + "," + raw_of(r, 3) + "," + raw_of(r, 4) + "]").str("out", o2).s);
             } else if (field_s(o, "k") == "mov") {
                 int a = field_i(o, "a"), d = field_i(o, "d");
